@@ -52,7 +52,8 @@ Inductive call :=
 
 Inductive res :=
 | RUnit | ROpt (o : option Z) | RLos (actual : Z) (loaded : bool) | RBool (b : bool)
-| RRange (l : list (Z * Z)) (count : Z) | RPanic (k : panic_kind).
+| RRange (l : list (Z * Z)) (count : Z) | RPanic (k : panic_kind)
+| RCount (count : Z).   (* only used for OBSERVED results: a Range whose pairs the caller did not record *)
 
 Definition call_inst (c : call) : nat :=
   match c with CLoad i _ | CStore i _ _ | CLoadOrStore i _ _ _ | CLoadAndDelete i _ | CDelete i _ | CRange i _ => i end.
